@@ -217,10 +217,19 @@ ADDENDA5 = {
 }
 # rules added in round r8 (DESIGN.md 11.3)
 ADDENDA6 = {
+    'C01': ' Also (C01-3): no handler in front of the return_exceptions handler takes a class of Exception away.',
+    'C02': ' Also (C02-8): what the ensemble stores in a result slot is a RemoteException or proven not an exception (C04-2).',
+    'C05': ' Also: every streamlet iterator over an upstream is a generator function (C05-13).',
     'C06': ' Also: the routing threads of compound servlets hand no exception value to switch() or a member (C06-16).',
     'C07': ' Also (C07-8): the admission wait of every pass is what is left of the timeout.',
+    'C08': ' Also (C08-3): the worker function of AsyncParmapper runs on the sized pool only; the fifo functions read the source itself.',
     'C09': ' Also: the timeout of SingleLane.get / put reaches the condition wait as given (C09-13); nothing comes off the buffer into a batch untested (C09-1).',
+    'C10': ' Also: the handler that records the end of the source catches StopIteration alone (C10-11).',
+    'C12': ' Also: the outcome is read before anything waits for the child to end (C12-14); on EOF the exit code is used only once it is set (C12-15).',
+    'C13': ' Also (C13-4): create() never un-hosts an object.',
     'C14': ' Also: the receipt of the request is covered by the handler that answers #TRACEBACK (C14-16); the exposed names come from the hosted object (C14-17).',
+    'C16': ' Also: the per-pass state of ParmapperAsync is created by __iter__ (C16-9).',
+    'C17': ' Also: ResponsiveQueue.put retries on Full, get on Empty (C17-10).',
     'C18': ' Also: the pipe methods hand their parameters on unchanged (C18-8); write_record puts no clock on drain() (C18-17).',
     'C20': ' Also: SpawnContext.get_context returns the package\'s own context for None / "spawn" (C20-8).',
 }
